@@ -60,7 +60,7 @@ type cmafIngester struct {
 	repsData       []cmafRepData
 	nextSegTrigger chan struct{}
 	done           chan struct{} // closed when the session goroutine has returned
-	mu             sync.Mutex // protects state and report (written by the session goroutine, read by API handlers)
+	mu             sync.Mutex    // protects state and report (written by the session goroutine, read by API handlers)
 	state          ingesterState
 	report         []string
 }
